@@ -132,6 +132,33 @@ func newCond(fr *frame, args []Value) Value {
 	return cell
 }
 
+// atomicSync: atomics are synchronisation operations: a store/RMW releases the
+// thread's clock into the cell, a load/RMW acquires it.
+func atomicSync(th *Thread, addr Value, acquire, release bool) {
+	r := th.eng.race
+	if r == nil {
+		return
+	}
+	p, ok := addr.(*Value)
+	if !ok || p == nil {
+		return
+	}
+	if r.atoms == nil {
+		r.atoms = map[*Value]*[]int{}
+	}
+	vc := r.atoms[p]
+	if vc == nil {
+		vc = new([]int)
+		r.atoms[p] = vc
+	}
+	if acquire {
+		r.acquire(th, vc)
+	}
+	if release {
+		r.releaseJoin(th, vc)
+	}
+}
+
 func atomicLoad(fr *frame, a []Value) Value {
 	th := fr.th
 	th.yield("atomic.Load")
@@ -140,6 +167,7 @@ func atomicLoad(fr *frame, a []Value) Value {
 		e.race.atomic = true
 		defer func() { e.race.atomic = false }()
 	}
+	atomicSync(th, a[0], true, false)
 	return th.load(nil, a[0])
 }
 
@@ -151,6 +179,7 @@ func atomicStore(fr *frame, a []Value) Value {
 		e.race.atomic = true
 		defer func() { e.race.atomic = false }()
 	}
+	atomicSync(th, a[0], false, true)
 	th.store(nil, a[0], a[1])
 	return nil
 }
@@ -163,6 +192,7 @@ func atomicAdd(fr *frame, a []Value) Value {
 		e.race.atomic = true
 		defer func() { e.race.atomic = false }()
 	}
+	atomicSync(th, a[0], true, true)
 	v := e.pool.Bin(OpAdd, th.load(nil, a[0]).(*Term), a[1].(*Term))
 	th.store(nil, a[0], v)
 	return v
@@ -176,6 +206,7 @@ func atomicCAS(fr *frame, a []Value) Value {
 		e.race.atomic = true
 		defer func() { e.race.atomic = false }()
 	}
+	atomicSync(th, a[0], true, true)
 	cur := th.load(nil, a[0]).(*Term)
 	if e.path.Branch(e.pool.Cmp(OpEq, cur, a[1].(*Term))) {
 		th.store(nil, a[0], a[2])
